@@ -279,6 +279,23 @@ func runC20(t *testing.T, seed uint64, planJSON []byte, tier string) (res *Resul
 		}
 		prof0 := profile()
 		g0 := runtime.NumGoroutine()
+		// server-side connections that are open and not resting in a pool (the
+		// last thing a pool does with a connection it keeps is the validity
+		// check on return): connections the client opened and forgot
+		strays := func() map[int]string {
+			last := map[int]string{}
+			for _, e := range w.Srv.JournalFrom(0) {
+				last[e.Conn] = e.Kind
+			}
+			out := map[int]string{}
+			for _, cs := range w.Srv.ConnStates() {
+				if !cs.Closed && last[cs.ID] != "VALID" {
+					out[cs.ID] = last[cs.ID]
+				}
+			}
+			return out
+		}
+		stray0 := strays()
 		// the batch
 		var mu sync.Mutex
 		wantAT := map[int]int{}
@@ -367,6 +384,18 @@ func runC20(t *testing.T, seed uint64, planJSON []byte, tier string) (res *Resul
 		for name, db := range map[string]*sql.DB{"at": atDB, "xa": xaDB} {
 			if st := db.Stats(); st.InUse != 0 {
 				sim.Violate("C20", "no-connection-lost", "connection-in-use-"+name, "the %s handle still has %d connection(s) in use after the batch", name, st.InUse)
+			}
+		}
+		{
+			var lost []string
+			for id, kind := range strays() {
+				if _, before := stray0[id]; !before {
+					lost = append(lost, fmt.Sprintf("c%d (last: %s)", id, kind))
+				}
+			}
+			sort.Strings(lost)
+			if len(lost) > 0 {
+				sim.Violate("C20", "no-connection-lost", "connection-left-open", "%d database connection(s) opened during the batch are still open and in no pool after it: %v", len(lost), lost)
 			}
 		}
 		if n := w.Srv.OpenTxnCount(); n > 0 {
